@@ -392,6 +392,18 @@ func runDial(tt *testing.T, tape *simrt.Tape, keep bool) (out simrt.Outcome) {
 			}
 			ar := acts[0]
 			if !forced {
+				// a goroutine waiting for a lock can only get on once its holder has moved: when the holder is parked
+				// (it is among the other candidates then) releasing waiters just burns steps, so they are drawn
+				// one time in eight only
+				var others []*simrt.Arrival
+				for _, a := range acts {
+					if a.Kind != simrt.KLockWait {
+						others = append(others, a)
+					}
+				}
+				if len(others) > 0 && len(others) < len(acts) && !tape.Prob(1, 8) {
+					acts = others
+				}
 				ar = acts[tape.Choose(len(acts))]
 			}
 			lastRel = w.Step
@@ -438,7 +450,12 @@ func runDial(tt *testing.T, tape *simrt.Tape, keep bool) (out simrt.Outcome) {
 			}
 		}
 		// ---- oracle over the dial history ----
-		if viol == nil {
+		if viol == nil && len(cur) > 0 {
+			// the step budget of the simulation ran out with dials still in progress (they were making progress:
+			// a standstill is reported above): the run is incomplete, nothing is concluded from it
+			stats["skipped.step-budget-exhausted"]++
+			w.Log.Addf("step budget exhausted with %d dials in progress", len(cur))
+		} else if viol == nil {
 			checkDialHistory(fail, stats, mode, ttl, z, first, changes, cmap, mapped, repl, order, long, len(arms) == 0)
 		}
 		if viol == nil {
